@@ -12,6 +12,10 @@ package linux
 //vc:  requires[C11] @notInConfMode !confMode
 //vc:  ensures[C11] @leavesConfMode !confMode
 //vc:  requires[C11] !isCompareRun || pass == loginPass
+// C17: the password is typed only in answer to a password prompt; typed at a
+// shell prompt (public-key login, prompt of a non-root user) the shell echoes
+// it and the echo is written to the .login file
+//vc:  assert[C17] at "conn.IssueCmd(pass,"#? @secretOnlyAtPasswordPrompt strings.HasSuffix(out, "word:")
 // routingSaved: the startup routing file was rewritten in this run. When route
 // commands were sent, the file is rewritten too - also when the target has no
 // route left (the file then only holds the header); otherwise the deleted
